@@ -114,7 +114,7 @@ def run(ctx):
                    "are drawn and the last value is zeta*share minus the sum of all of them, zeta being the Lagrange "
                    "coefficient of the caller over the helper set evaluated at the repaired identifier; parts 2 and 3 "
                    "sum every delta / sigma; part 3 returns verifying share = G*share, group key and threshold of the "
-                   "public key package (threshold must be known).")
+                   "public key package (threshold must be known). The part-one rules are anchored at repair_share_part1 and read its result through whatever private helper it returns.")
     ctx.undecided = "that the repaired value equals f(identifier) (interpolation arithmetic)."
     ctx.floor = 14
     refusal_inventory(ctx)
